@@ -682,6 +682,25 @@ pub fn run(ctx: &Ctx) -> Rec {
   for b in [[0u8; 24], [0xffu8; 24], bf::to_le24(&bf::p()), bf::to_le24(&(bf::p() + BigUint::one())), bf::to_le24(&(bf::p() - BigUint::one())), bf::to_le24(&(bf::p() + bf::p()))] {
     check_decode(&mut total, &b);
   }
+  // field arithmetic composed: the public evaluator on polynomials of different
+  // degrees against big-integer Horner evaluation
+  let r = par_run(ctx, "evaluator", ctx.n(300, 10_000), |rec, _i, rng| {
+    let k = rng.gen_range(1..4usize);
+    let polys_big: Vec<Vec<BigUint>> = (0..k).map(|_| (0..rng.gen_range(1..7usize)).map(|_| if rng.gen_bool(0.3) { pick(rng, &lat).clone() } else { uniform_elem(rng) }).collect()).collect();
+    let polys: Vec<Vec<Fp>> = polys_big.iter().map(|p| p.iter().map(|c| to_fp(c).unwrap()).collect()).collect();
+    let mut ev = star_sharks::get_evaluator(polys);
+    for _ in 0..3 {
+      let s = ev.next().unwrap();
+      for (i, p) in polys_big.iter().enumerate() {
+        rec.ev("evaluator_horner");
+        if bf::horner_high_first(p, &of_fp(&s.x)) != of_fp(&s.y[i]) {
+          rec.violation("arith:evaluator", format!("evaluation of polynomial {} (lengths {:?}) at x={} disagrees with big-integer arithmetic", i, polys_big.iter().map(|p| p.len()).collect::<Vec<_>>(), of_fp(&s.x)), json!({"kind":"evaluator"}));
+          return;
+        }
+      }
+    }
+  });
+  total.merge(r);
   // Fp::random stays in range and round-trips (sanity of the sampler the dealer uses)
   let r = par_run(ctx, "random", 16, |rec, _i, rng| {
     for _ in 0..2000 {
